@@ -962,6 +962,13 @@ impl StorageEngine {
                         None => increment,
                     };
                     
+                    // inf + -inf: refused, the member keeps its score
+                    if new_score.is_nan() {
+                        return Err(FerrousError::Command(CommandError::Generic(
+                            "resulting score is not a number (NaN)".to_string()
+                        )));
+                    }
+                    
                     skiplist.insert(member, new_score);
                     shard_guard.mark_modified(&key);
                     // NO touch() call - no access time tracking overhead
